@@ -1,0 +1,13 @@
+//go:build verif
+
+// Contracts for package uripost, checked by /verif/govc. Comment-only: no code.
+package uripost
+
+//@ func DecodeURI
+//@ props C13 C07
+//@ modifies nothing
+//@ ensures [size-is-a-length] imp(err == nil, bodySize >= 0)
+//@ ensures [needs-size-and-uri] imp(len(result_of(strings.Split, 0)) < 2, err != nil)
+//@ ensures [uri-is-second-field] imp(err == nil, uri == result_of(strings.Split, 0)[1])
+//@ at call strings.Split assert [fields] arg(a0) == uriString0 && arg(a1) == " "
+//@ at call strconv.Atoi assert [size-field] arg(a0) == result_of(strings.Split, 0)[0]
